@@ -872,10 +872,10 @@ fn arbitrary(_t: Tier) -> BoxedStrategy<Case> {
 
 pub fn subs() -> Vec<Sub> {
     vec![
-        gen_sub("wellformed", wellformed, |t| t.pick(4_000, 100_000), check),
-        gen_sub("truncations", truncations, |t| t.pick(2_000, 40_000), check),
-        gen_sub("field_edits", field_edits, |t| t.pick(20_000, 400_000), check),
-        gen_sub("arbitrary", arbitrary, |t| t.pick(10_000, 400_000), check),
+        gen_sub("wellformed", wellformed, |t| t.pick(20_000, 100_000), check),
+        gen_sub("truncations", truncations, |t| t.pick(8_000, 40_000), check),
+        gen_sub("field_edits", field_edits, |t| t.pick(100_000, 400_000), check),
+        gen_sub("arbitrary", arbitrary, |t| t.pick(60_000, 400_000), check),
         super::fuzzrun::fuzz_sub::<Case>("fuzz", "c20", check, Case::Bytes),
     ]
 }
